@@ -4,6 +4,7 @@
 -/
 import Model.CoreLemmas
 import Model.CoreDial
+import Model.CoreLive
 namespace Props.C14
 open Model Model.Core
 
@@ -94,6 +95,15 @@ theorem closed_dialer_never_attempts_again (s : State) (hs : Reach s) (d : Nat) 
   split at hr
   · simp at hr; subst hr; simp at he; subst he; intro h; cases h
   · simp [hxc] at hr; subst hr; simp at he; subst he; intro h; cases h
+
+/-- "reconnect after loss", in every reachable state: a started dialer is never stranded — an active, open dialer has
+    an attempt in progress, or its redial timer armed, or a connection of its own attached.  Whatever sequence of failed
+    attempts, refused or rejected connections, hooks closing pipes during Attaching, lost connections and timers led
+    here, something will dial again or the connection exists (what is left to the runtime: timers do fire) -/
+theorem started_dialer_is_never_stranded (s : State) (hs : Reach s) :
+    ∀ d x, getDialer s d = some x → x.active = true → x.closed = false →
+      x.dialing.isSome = true ∨ x.timer.isSome = true ∨ ∃ p ∈ s.pipes, p.dialer = some d :=
+  fun d x hx ha hc => reach_DL s hs d x hx (by intro e; cases e) ha hc
 
 example : ∃ x : DialerSt, x.active = true ∧ Core.lo x = 20 ∧ Core.hi x = 60 :=
   ⟨{ d := 1, asynch := true, active := true, minT := 20, maxT := 60 }, rfl, by decide, by decide⟩
